@@ -515,14 +515,21 @@ def lang_lines(ctx, sources, op="eval", ast_sources=None):
     return lines
 
 
-def vmrun_lines(ctx, sources):
+def vmrun_lines(ctx, sources, static=None):
     """The VM model runs the REAL compiler's bytecode: harness op `compile` dumps it, the driver op `vmrun` executes
-    the dump on the Lean VM model, the harness op `vmrun` executes the same source on the real VM."""
+    the dump on the Lean VM model (and runs the verified bytecode verifier Bcv on it), the harness op `vmrun` executes
+    the same source on the real VM.  `static` (one bool per source, or True for all): the driver only runs Bcv on the
+    dump — for program families where the VM model's deep copies of shared arrays can explode."""
+    if static is None or static is False:
+        static = [False] * len(sources)
+    elif static is True:
+        static = [True] * len(sources)
+    mark = [" static" if st else "" for st in static]
     if not ctx.harness:
-        return [f"vmrun {s.encode('utf-8').hex()} @@ -" for s in sources]
+        return [f"vmrun {s.encode('utf-8').hex()}{m} @@ -" for s, m in zip(sources, mark)]
     clines = ["compile " + s.encode("utf-8").hex() for s in sources]
     outs = run_parallel(ctx.harness, clines, timeout=120, label="compile")
-    return [f"vmrun {s.encode('utf-8').hex()} @@ {o}" for s, o in zip(sources, outs)]
+    return [f"vmrun {s.encode('utf-8').hex()}{m} @@ {o}" for s, m, o in zip(sources, mark, outs)]
 
 
 TRUSTED_BASE = [
